@@ -181,6 +181,7 @@ func (sc *SecretConnection) Read(data []byte) (n int, err error) {
 	if 0 < len(sc.recvBuffer) {
 		n_ := copy(data, sc.recvBuffer)
 		sc.recvBuffer = sc.recvBuffer[n_:]
+		n = n_
 		return
 	}
 	frame, err := sc.readDecode()
